@@ -314,7 +314,33 @@ def traces(target, rng, tier):
 
 
 TIE_IMPORTS = "From LunaLib Require Import PackN.\nFrom LunaModel Require Import CtlXfer CtlXfer_proofs.\n"
-ASSUMPTIONS = []
+ASSUMPTIONS = [
+    "interface-event level (DESIGN.md section 3, composite properties): the targets are the real USBControlEndpoint + StandardRequestHandler + "
+    "USBRequestHandlerMultiplexer + StallOnlyRequestHandler of /repo, with three data producers replaced by port-only stubs -- "
+    "USBSetupDecoder (SetupPacket record and its ACK request become inputs; subject of C06), the GET_DESCRIPTOR handler (via "
+    "get_descriptor_handler_submodule(); stall / tx stream inputs, start / start_position outputs; C09) and the 2-byte StreamSerializer "
+    "(tx stream input, start output).  The token detector (C01), data receiver (C02) and handshake detector (C04) are outside "
+    "USBControlEndpoint(standalone=False) anyway; their reports are inputs.  Cone-of-influence slicing (harness/slice.py) drops the rest "
+    "(rx pass-through, timer/CRC plumbing) after checking that no undeclared input can reach a declared output",
+    "environment hypothesis of the trace theorems (cx_env_trace; contracts of the token detector and the SETUP decoder): tokenizer.endpoint "
+    "changes only in cycles with new_token; at most one of is_in/is_out/is_setup/is_ping is high; setup.received comes at most once per "
+    "SETUP token, after it, before any other token, not together with new_token.  Not assumed: timing, a protocol-abiding host, which "
+    "endpoint tokens address, anything about handshakes or the data sources.  C07_foreign_tokens_invisible needs no hypothesis at all",
+    "as found, USBSetupDecoder accepts SETUP tokens for ANY endpoint (it never looks at tokenizer.endpoint): after a SETUP transaction to "
+    "another endpoint it overwrites the shared setup fields, reports `received` and requests an ACK.  At this level that is an input "
+    "(`received` while endpoint != EP): the stage FSM ignores it (modelled, proved), the request handlers do not (modelled as in the code: "
+    "they re-dispatch); the non-interference theorem therefore leaves `received` and the setup fields unchanged between the two runs it "
+    "compares.  Reported as part of finding C07-foreign-setup; only devices addressed with SETUP on a non-zero endpoint are affected",
+    "handshakes_in.ack is taken as in the code: ANY host ACK completes a pending SET_ADDRESS / SET_CONFIGURATION / CLEAR_FEATURE and advances "
+    "GET_DESCRIPTOR (the subject of C08, not restated here)",
+    "PING is answered with ACK in the OUT data / OUT status phases by the stage FSM regardless of the request ([USB2.0 8.5.1]; modelled)",
+    "netlist = model is kernel-checked for all traces, of any length, over a finite set of input words (request templates x token contexts "
+    "incl. another endpoint and non-one-hot kinds x strobe combinations, every word may follow every word: no stability of fields or context "
+    "is assumed); words outside the set (other field values) are covered by correspondence on simulator traces only",
+    "tie configurations: (endpoint 0, max_packet_size 8, 4-bit start_position), and in the thorough tier (endpoint 2, skiplist = "
+    "SET_CONFIGURATION) and (max_packet_size 5, 3-bit start_position: wrap-around); correspondence additionally at the real sizes "
+    "(max_packet_size 64, 11-bit start_position)",
+]
 
 
 # ---- input alphabets of the kernel-checked netlist = model obligations ---------------------------------------
@@ -354,6 +380,10 @@ def alphabet(ep, tier):
     return words
 
 
+def skip_expr(t):
+    return "skip_none" if t.params["skip_req"] is None else f"(skip_req {t.params['skip_req']})"
+
+
 def obligations(targets, tier):
     obs = []
     for t in targets:
@@ -364,12 +394,63 @@ def obligations(targets, tier):
                 f"ob_{t.name}", t, St="cx_state", mstep=f"cx_stepN {P}", enc="cx_enc", dec="cx_dec",
                 wf="(fun _ => True)", dec_enc="(fun s _ => cx_dec_enc s)", wf_step="(fun _ _ _ => I)",
                 m0="cx_init", wf_m0="exact I.", alphabet="[" + "; ".join(str(w) for w in al) + "]", fuel=100000,
-                describe=f"netlist == model on all traces over {len(al)} input words"))
+                describe=f"USBControlEndpoint(endpoint {t.params['ep']}) + StandardRequestHandler(max_packet_size {t.params['mps']}"
+                         f"{', skiplist request ' + str(t.params['skip_req']) if t.params['skip_req'] is not None else ''}) + multiplexer + "
+                         f"fallback (sliced netlist, decoder / descriptor handler / serializer as ports) == model, all traces over "
+                         f"{len(al)} input words"))
+        obs.append(tie.cmon(f"spec_{t.name}", t, mon=f"(cx_mon {t.params['ep']} {skip_expr(t)})", m0="(mon_enc mon0)",
+                            describe="specification (stage protocol, causes of answers, first answer of a fresh transfer) evaluated over "
+                                     "simulator traces of the real module, while the environment hypothesis holds"))
         obs.append(tie.corr(f"corr_{t.name}", t, mstep=f"cx_stepN {P}", m0="cx_init",
-                            describe="model vs simulator"))
+                            describe="model vs simulator of the real module: host scripts (abandoned transfers, traffic to other endpoints, "
+                                     "arbitrary requests) and unconstrained random input words, every output of every cycle"))
     return obs
 
 
-LEVEL_TEXT = "wip"
-LEVEL_NOTE = "wip"
-TECHNIQUE = "wip"
+def tie_theorems(targets, tier):
+    s = ""
+    for t in targets:
+        if t.kind != "small":
+            continue
+        ep = t.params["ep"]; sk = skip_expr(t)
+        ext = "exact skip_none_ext" if t.params["skip_req"] is None else f"exact (skip_req_ext {t.params['skip_req']})"
+        s += f"""
+Theorem C07_{t.name} : forall tr, Forall (fun i => In i ob_{t.name}.alpha) tr -> cx_env_trace cx_env0 tr = true ->
+  let outs := map cx_unpack (run {t.modname}.step {t.modname}.init tr) in
+  holds_along {ep} sp0 tr outs /\\ fresh_along {ep} {sk} sp0 false tr outs = true.
+Proof.
+  intros tr H He. cbv zeta. rewrite (ob_{t.name}_T.tie tr H (env_ok_true _ _ _ _)), unpack_run.
+  split; [apply stage_protocol; exact He | apply first_answers_fresh; [{ext} | exact He]].
+Qed.
+"""
+    return s
+
+
+def tie_theorem_names(targets, tier):
+    return [f"C07_{t.name}" for t in targets if t.kind == "small"]
+
+
+LEVEL_TEXT = ("Machine-checked proof, at the level of LUNA's own interfaces (token / SETUP / rx / handshake reports in, requests to the "
+              "request handler and answers out). (1) Parametric model theorems (all endpoint numbers, packet sizes, skiplists; unbounded "
+              "histories; under the stated producer contracts): C07_stage_protocol -- data is requested exactly in the data stage of a "
+              "device-to-host request with wLength <> 0 at an IN answer opportunity for this endpoint, status exactly at the answer opportunity "
+              "of the opposite direction (IN if no data stage), PING ACKed exactly in OUT phases, and every answer has a cause; "
+              "C07_current_transfer -- the transfer in progress is the last SETUP packet for this endpoint not followed by a SETUP token for it; "
+              "C07_fresh_after_setup / C07_history_independent / C07_nonstandard_history_independent / C07_first_answers_fresh -- every new SETUP "
+              "puts stage FSM, request FSM, data PID, start_position and expecting_ack into the state that request calls for, whatever was "
+              "abandoned before, and the first data/status request is answered as the request's class demands; C07_foreign_tokens_invisible -- "
+              "token reports for other endpoints change neither outputs nor state (no hypothesis). (2) Per run, the netlist regenerated from "
+              "/repo is proved equal to the model on all traces over the tie alphabets (certified product reachability), which transfers (1) to "
+              "the netlist (C07_<target>). (3) Correspondence + specification monitors on simulator traces incl. the real sizes.")
+LEVEL_NOTE = ("The model is the property-satisfying behaviour; the unchanged /repo violates the property in three places (findings/C07-*.json, "
+              "candidate patch findings/C07-fresh-setup.diff): (a) StandardRequestHandler dispatches setup.received only in IDLE, so a transfer "
+              "abandoned before its status stage / host ACK leaves the handler in the old request's state and the next SETUP is answered by the "
+              "old request's logic; (b) _handle_setup_reset is not gated by endpoint_targeted, so a SETUP token to another endpoint aborts the "
+              "transfer; (c) see C10. `./check C07` exits 1 on the unchanged tree and 0 with the patch. Partial / assumed: the producers of the "
+              "interface events are stubs here (their contracts are C01/C02/C04/C06/C09 and the environment hypothesis); the wire-level view "
+              "(UTMI bytes) is not restated; the netlist tie quantifies over finite input alphabets; the SETUP decoder's acceptance of SETUP "
+              "tokens for other endpoints is recorded as a finding, not repaired in the model's inputs. Trusted: Coq kernel + vm_compute, "
+              "Amaranth elaboration, nir2coq.py/Netlist.v/slice.py (validated each run against pysim).")
+TECHNIQUE = ("Rocq proof: history-function specification + simulation invariant (stage FSM = phase of the last SETUP), freshness and "
+             "non-interference lemmas; certified product-reachability lock-step of the sliced netlist with the model over explicit input "
+             "alphabets; specification monitors and model correspondence on simulator traces")
